@@ -311,6 +311,19 @@ theorem weakShape_bijection_wellformed (n : Node) :
     SlotMap.wfb (Node.weakShape n).2 = true ∧ SlotMap.isBijection (Node.weakShape n).2 = true :=
   Node.weakShape_bij_ok n
 
+/-- **the returned bijection is defined on every free slot of the shape** (so `apply_slotmap(bijection)` on a stored shape never hits the
+`SlotMap::index` panic) — one inclusion of `keys bij = slots(shape)`, the third conjunct of the snapshot invariant's `nodeOK` -/
+theorem weakShape_bijection_defined_on_slots (n : Node) :
+    ∀ x ∈ Node.slots (Node.weakShape n).1, x ∈ SlotMap.keys (Node.weakShape n).2 := by
+  intro x hx
+  rw [slots_eq_public] at hx
+  unfold Node.publicOcc at hx
+  obtain ⟨f', hf', hxf⟩ := List.mem_flatMap.mp hx
+  have hg := (ShapeApply.bij_spec n f' hf').1 x hxf
+  have hw : SlotMap.WF (Node.weakShape n).2 := SlotMap.wf_inverse _
+  have := (SlotMap.get_eq_some_iff hw _ _).mp hg
+  exact List.mem_map.mpr ⟨_, this, rfl⟩
+
 /-- non-vacuity (kernel-checked): a binder shadowing a free slot of the same name -/
 def exShadow : Node := { v := 0, fields := [.slot 8, .bind 8 (.app { id := 3, m := [(0, 8), (4, 12)] }), .slot 8] }
 example : (Node.weakShape exShadow).1 =
